@@ -195,11 +195,35 @@ def _uf1(name, axioms=None):
             return NotImplemented
         ctx.assumed.add(f"{name}: uninterpreted real function with the axioms stated in pyvc/axioms.py")
         fn = smt.uf(name, z3.RealSort(), z3.RealSort())
-        r = fn(term(x, "real"))
+        xt = canon_coeff(term(x, "real"))
+        r = fn(xt)
         if axioms:
-            axioms(ctx, term(x, "real"), r)
+            axioms(ctx, xt, r)
         return mk(r, "real")
     return f
+
+
+def canon_coeff(t):
+    """Arguments of transcendental functions: numeric coefficients are rounded to 13 significant
+    digits, so that c1*x and c2*x are the same term when c1 and c2 differ only by float rounding of
+    the table constants (relative 1e-13).  Part of 'machine arithmetic treated as mathematical'."""
+    from fractions import Fraction as _Q
+    t = z3.simplify(t, som=True)
+
+    def rnd(v):
+        q = _Q(v.numerator_as_long(), v.denominator_as_long())
+        if q == 0:
+            return v
+        f = float(q)
+        return z3.RealVal(str(_Q(repr(float(f"{f:.12e}")))))
+
+    def walk(e):
+        if z3.is_rational_value(e):
+            return rnd(e)
+        if z3.is_app(e) and e.decl().kind() in (z3.Z3_OP_MUL, z3.Z3_OP_ADD, z3.Z3_OP_DIV, z3.Z3_OP_UMINUS, z3.Z3_OP_SUB):
+            return e.decl()(*[walk(c) for c in e.children()])
+        return e
+    return z3.simplify(walk(t), som=True)
 
 
 def _ax_log10(ctx, x, r):
@@ -245,7 +269,7 @@ def m_power(ctx, args, kw):
     if not isinstance(a, Sym) and a == 10:
         ctx.assumed.add("pow10: uninterpreted real function with the axioms stated in pyvc/axioms.py")
         fn = smt.uf("pow10", z3.RealSort(), z3.RealSort())
-        x = term(b, "real")
+        x = canon_coeff(term(b, "real"))
         r = fn(x)
         _ax_pow10(ctx, x, r)
         return mk(r, "real")
